@@ -770,6 +770,26 @@ namespace occa {
         pushOutput(&token);
         return;
       }
+      // [defined NAME] is also valid without parentheses,
+      //   NAME must not be macro-expanded
+      if (token.value == "defined") {
+        expandingMacros = false;
+        token_t *nameToken = NULL;
+        (*this) >> nameToken;
+        expandingMacros = true;
+        if (token_t::safeType(nameToken) & tokenType::identifier) {
+          const bool isDefined = !!getMacro(nameToken->to<identifierToken>().value);
+          pushOutput(new primitiveToken(token.origin,
+                                        isDefined,
+                                        isDefined ? "true" : "false"));
+          delete nameToken;
+          delete &token;
+          return;
+        }
+        if (nameToken) {
+          pushInput(nameToken);
+        }
+      }
       // Make sure that the macro starts with a '('
       token_t *nextToken = NULL;
       (*this) >> nextToken;
